@@ -334,7 +334,12 @@ fn build_incoming(ev: &Ev) -> Vec<u8> {
         msg.dynheader.response_serial = NonZeroU32::new(77);
     }
     msg.dynheader.sender = ev.sender.clone();
-    msg.dynheader.destination = Some("org.me".into());
+    // a call need not name a destination (a direct peer, a relay that consumed it): the reply goes to the SENDER all the same
+    msg.dynheader.destination = if ev.serial % 4 == 1 { None } else { Some("org.me".into()) };
+    if ev.kind != 2 && ev.serial % 5 == 2 {
+        // a stray REPLY_SERIAL on a call or signal (the wire format allows it) must not leak into the reply
+        msg.dynheader.response_serial = NonZeroU32::new(0x0a0b0c0d);
+    }
     if ev.serial % 3 == 0 {
         msg.body.push_param(ev.serial).unwrap();
     }
